@@ -283,9 +283,9 @@ fn swh_case<H: Pay, E: Pay>(rep: &mut Rep, seed: u64, n: usize) {
     let mut arena = Arena::<Rootable![WRoot<'_, H, E>]>::new(|_| WRoot { v: None, s: None, junk: Vec::new() });
     let r = arena.mutate_root(|mc, root| {
         root.junk.push(Gc::new(mc, [0u8; 24]));
-        let g = GcSliceWithHeaderBuilder::<H, E>::new(n).write_header(H::make(s0)).write_slice_with(mc, |i| E::make(s0.wrapping_add(i as u8 + 1)));
+        let g = GcSliceWithHeaderBuilder::<H, E>::new(n).write_header(H::make(s0)).write_slice_with(mc, |i| E::make(s0.wrapping_add((i as u8).wrapping_add(1))));
         Gc::new(mc, [1u8; 24]);
-        let s = GcSliceBuilder::<E>::new(n).write_slice_with(mc, |i| E::make(s0.wrapping_add(i as u8 + 1)));
+        let s = GcSliceBuilder::<E>::new(n).write_slice_with(mc, |i| E::make(s0.wrapping_add((i as u8).wrapping_add(1))));
         root.v = Some(g);
         root.s = Some(s);
         let p = Gc::as_ptr(g);
@@ -365,15 +365,15 @@ fn swh_case<H: Pay, E: Pay>(rep: &mut Rep, seed: u64, n: usize) {
                 return Some(format!("header byte {} changed", i));
             }
             for (k, e) in g.slice.iter().enumerate() {
-                if let Some(i) = e.check(s0.wrapping_add(k as u8 + 1)) {
+                if let Some(i) = e.check(s0.wrapping_add((k as u8).wrapping_add(1))) {
                     return Some(format!("element {} byte {} changed", k, i));
                 }
             }
             for (k, e) in s.iter().enumerate() {
-                if let Some(i) = e.check(s0.wrapping_add(k as u8 + 1)) {
+                if let Some(i) = e.check(s0.wrapping_add((k as u8).wrapping_add(1))) {
                     return Some(format!("plain slice element {} byte {} changed", k, i));
                 }
-                e.rewrite(s0.wrapping_add(k as u8 + 1));
+                e.rewrite(s0.wrapping_add((k as u8).wrapping_add(1)));
             }
             None
         });
